@@ -9,7 +9,7 @@ Definition Reqb (a b : R) : bool := if Req_EM_T a b then true else false.
 Definition RN : Num := {|
   T := R; n0 := 0; n1 := 1;
   nadd := Rplus; nsub := Rminus; nmul := Rmult; ndiv := Rdiv;
-  nleb := Rleb; neqb := Reqb; nsqrt := sqrt; nexp := exp; nofZ := IZR |}.
+  nleb := Rleb; neqb := Reqb; nsqrt := sqrt; nexp := exp; npi := PI; nofZ := IZR |}.
 
 Lemma Rleb_true a b : Rleb a b = true <-> a <= b.
 Proof. unfold Rleb; destruct (Rle_dec a b); split; intros; auto; try discriminate; contradiction. Qed.
